@@ -320,7 +320,10 @@ def pool_identity_rule(fx, scope, key_ty="value::JsString"):
         for bi, t in gets:
             found.add(t[3][0])
         # "what if the identity test says no": the found slot must then be unreachable (the test may sit in an `&&` chain or be kept in a flag)
-        ident = {bi: 0 for bi, t in f.calls() if (t[1].get("d") or "").endswith("::ptr_eq")}
+        # ... directly, or in a boolean helper (`holds_same_string(idx, &s)`)
+        ident_helpers = {q for q, g in fx.fns.items() if not g.derived and g.sig and fx.tys(g.sig[-1]) == "bool"
+                         and any((t2[1].get("d") or "").endswith("::ptr_eq") for _, t2 in g.calls())}
+        ident = {bi: 0 for bi, t in f.calls() if (t[1].get("d") or "").endswith("::ptr_eq") or t[1].get("d") in ident_helpers}
         differ = M.reach_bool_sensitive(fx, f, [0], assume=ident)
         # returns of the found value: `_0 = Ok(idx)` with idx derived from the lookup
         rets = [(bi, s) for bi, bl in enumerate(f.blocks) for s in bl["s"]
